@@ -15,7 +15,8 @@ COQ_DEPS = ["Common/ListX.v", "Common/ObsHash.v", "Generated/Tables.v", "Model/C
 COQ_IMPORTS = "From Mesa Require Import Model.ContGeom Model.ContLegacy Model.ContExp."
 COQ_CASE_TYPE = "case"
 COQ_RUN = "run_case"
-TABLE_CONSTRUCTS = ["cont_legacy_oob", "cont_exp_in_bounds", "cont_exp_growth", "cont_exp_kth", "cont_radius_ops"]
+TABLE_CONSTRUCTS = ["cont_legacy_oob", "cont_exp_in_bounds", "cont_exp_growth", "cont_exp_kth", "cont_radius_ops",
+                    "cont_wrap", "cont_exp_remove"]
 ENUM_ALWAYS = False
 RULE = ("histories = one continuous space (legacy: 2-D; experimental: 2-D/3-D, initial capacity in {0,1,2,3,10,100}), bounds "
         "with negative / non-unit origins, torus on/off, then <= 30 operations: place/add, move (in bounds, wrapping, "
